@@ -144,7 +144,7 @@ class FilterProp:
         fn = {'weekdays': get_weekdays, 'days': get_days, 'months': get_months}
         rnd = random.Random(run.seed * 1_000_003 + 17)
         n_parse = {'quick': 4000, 'thorough': 200_000}[run.tier]
-        n_filter = {'quick': 150, 'thorough': 6000}[run.tier]
+        n_filter = {'quick': 1200, 'thorough': 30000}[run.tier]
         run.rule = ('argument spellings (English/German names full/abbreviated in any case, numbers, comma lists, ranges incl. '
                     'wrap-around, nested iterables, malformed values) for weekdays/days/months; and filter expressions (nesting <= 3) '
                     'on instants of a 28-year grid in zones east and west of UTC; distinct = distinct (kind, spelling) or '
